@@ -519,6 +519,10 @@ impl VxToString for char { open spec fn dview(&self) -> Seq<char> { seq![*self] 
 impl VxToString for f64 { open spec fn dview(&self) -> Seq<char> { fmt_shortest(*self) } #[verifier::external_body] fn vx_string(&self) -> (r: String) { self.to_string() } }
 /// Display of the integer types (decimal rendering, uninterpreted)
 pub uninterp spec fn int_text(i: int) -> Seq<char>;
+/// the decimal rendering of a non-negative integer is a non-empty string of ASCII digits
+pub broadcast axiom fn axiom_int_text_digits(i: int)
+    requires i >= 0
+    ensures #[trigger] int_text(i).len() >= 1, all_digits(int_text(i));
 impl VxToString for u32 { open spec fn dview(&self) -> Seq<char> { int_text(*self as int) } #[verifier::external_body] fn vx_string(&self) -> (r: String) { self.to_string() } }
 impl VxToString for u8 { open spec fn dview(&self) -> Seq<char> { int_text(*self as int) } #[verifier::external_body] fn vx_string(&self) -> (r: String) { self.to_string() } }
 impl VxToString for u16 { open spec fn dview(&self) -> Seq<char> { int_text(*self as int) } #[verifier::external_body] fn vx_string(&self) -> (r: String) { self.to_string() } }
